@@ -31,12 +31,13 @@ enum View {
     Seq,
     Rev,   // iterate with .rev() and reverse the result
     Index, // build every list with the n-th accessors
+    IndexMut, // build every list with the mutable n-th accessors
     Mut,   // read through the *_mut iterators
     MutRev, // the *_mut iterators consumed from the back, result reversed
 }
 
 macro_rules! list {
-    ($view:expr, $x:expr, $it:ident, $it_mut:ident, $nth:ident, $id:expr) => {
+    ($view:expr, $x:expr, $it:ident, $it_mut:ident, $nth:ident, $nth_mut:ident, $id:expr) => {
         match $view {
             View::Seq => $x.$it().map($id).collect::<Vec<Sx>>(),
             View::Rev => {
@@ -53,6 +54,15 @@ macro_rules! list {
                 }
                 v
             }
+            View::IndexMut => {
+                let mut v = Vec::new();
+                let mut i = 0;
+                while let Some(e) = $x.$nth_mut(i) {
+                    v.push($id(&*e));
+                    i += 1;
+                }
+                v
+            }
             View::Mut => $x.$it_mut().map(|e| $id(&*e)).collect::<Vec<Sx>>(),
             View::MutRev => {
                 let mut v = $x.$it_mut().rev().map(|e| $id(&*e)).collect::<Vec<Sx>>();
@@ -64,7 +74,7 @@ macro_rules! list {
 }
 
 fn walk_conformer(c: &mut Conformer, v: View) -> Sx {
-    l(vec![l(vec![n(c.atom_count())]), l(list!(v, c, atoms, atoms_mut, atom, id_atom))])
+    l(vec![l(vec![n(c.atom_count())]), l(list!(v, c, atoms, atoms_mut, atom, atom_mut, id_atom))])
 }
 fn walk_residue(r: &mut Residue, v: View) -> Sx {
     let awh: Vec<Sx> = match v {
@@ -83,8 +93,8 @@ fn walk_residue(r: &mut Residue, v: View) -> Sx {
     };
     l(vec![
         l(vec![n(r.conformer_count()), n(r.atom_count())]),
-        l(list!(v, r, conformers, conformers_mut, conformer, id_conf)),
-        l(list!(v, r, atoms, atoms_mut, atom, id_atom)),
+        l(list!(v, r, conformers, conformers_mut, conformer, conformer_mut, id_conf)),
+        l(list!(v, r, atoms, atoms_mut, atom, atom_mut, id_atom)),
         l(awh),
     ])
 }
@@ -106,9 +116,9 @@ fn walk_chain(c: &mut Chain, v: View) -> Sx {
     };
     l(vec![
         l(vec![n(c.residue_count()), n(c.conformer_count()), n(c.atom_count())]),
-        l(list!(v, c, residues, residues_mut, residue, id_res)),
-        l(list!(v, c, conformers, conformers_mut, conformer, id_conf)),
-        l(list!(v, c, atoms, atoms_mut, atom, id_atom)),
+        l(list!(v, c, residues, residues_mut, residue, residue_mut, id_res)),
+        l(list!(v, c, conformers, conformers_mut, conformer, conformer_mut, id_conf)),
+        l(list!(v, c, atoms, atoms_mut, atom, atom_mut, id_atom)),
         l(awh),
     ])
 }
@@ -130,10 +140,10 @@ fn walk_model(m: &mut Model, v: View) -> Sx {
     };
     l(vec![
         l(vec![n(m.chain_count()), n(m.residue_count()), n(m.conformer_count()), n(m.atom_count())]),
-        l(list!(v, m, chains, chains_mut, chain, id_chain)),
-        l(list!(v, m, residues, residues_mut, residue, id_res)),
-        l(list!(v, m, conformers, conformers_mut, conformer, id_conf)),
-        l(list!(v, m, atoms, atoms_mut, atom, id_atom)),
+        l(list!(v, m, chains, chains_mut, chain, chain_mut, id_chain)),
+        l(list!(v, m, residues, residues_mut, residue, residue_mut, id_res)),
+        l(list!(v, m, conformers, conformers_mut, conformer, conformer_mut, id_conf)),
+        l(list!(v, m, atoms, atoms_mut, atom, atom_mut, id_atom)),
         l(awh),
     ])
 }
@@ -166,11 +176,11 @@ fn walk_pdb(p: &mut PDB, v: View) -> Sx {
         n(p.total_conformer_count()),
         n(p.total_atom_count()),
     ]);
-    let models = l(list!(v, p, models, models_mut, model, id_model));
-    let chains = l(list!(v, p, chains, chains_mut, chain, id_chain));
-    let residues = l(list!(v, p, residues, residues_mut, residue, id_res));
-    let confs = l(list!(v, p, conformers, conformers_mut, conformer, id_conf));
-    let atoms = l(list!(v, p, atoms, atoms_mut, atom, id_atom));
+    let models = l(list!(v, p, models, models_mut, model, model_mut, id_model));
+    let chains = l(list!(v, p, chains, chains_mut, chain, chain_mut, id_chain));
+    let residues = l(list!(v, p, residues, residues_mut, residue, residue_mut, id_res));
+    let confs = l(list!(v, p, conformers, conformers_mut, conformer, conformer_mut, id_conf));
+    let atoms = l(list!(v, p, atoms, atoms_mut, atom, atom_mut, id_atom));
     let wm: Vec<Sx> = p.models_mut().map(|m| walk_model(m, v)).collect();
     let wc: Vec<Sx> = p.chains_mut().map(|c| walk_chain(c, v)).collect();
     let wr: Vec<Sx> = p.residues_mut().map(|r| walk_residue(r, v)).collect();
@@ -234,6 +244,41 @@ fn bump(p: &mut PDB, level: &str, par: bool, via_hierarchy: bool) {
 
 pub fn run(seed: u64, count: usize, thorough: bool, out: &mut Out) {
     let mut rng = Rng::new(seed);
+    // every way of giving 2 or 3 models between 0 and 3 atoms each (sizes that add up to a multiple of the first, equal
+    // models, an empty model in front, in the middle or at the end): all views of the structure
+    {
+        let short = |p: &PDB| snap::pdb(p, &snap::atom_short);
+        let mut shapes: Vec<Vec<usize>> = Vec::new();
+        for a in 0..4 {
+            for b in 0..4 {
+                shapes.push(vec![a, b]);
+                for c in 0..4 {
+                    shapes.push(vec![a, b, c]);
+                }
+            }
+        }
+        for shape in shapes {
+            let mut p = PDB::new();
+            let mut serial = 1;
+            for (mi, k) in shape.iter().enumerate() {
+                let mut model = Model::new(mi + 1);
+                for j in 0..*k {
+                    // the second atom of a model sits in another residue, the third in another chain
+                    let chain = if j == 2 { "B" } else { "A" };
+                    model.add_atom(gen::short_atom(&mut rng, serial), chain, (j as isize, None), ("ALA", None));
+                    serial += 1;
+                }
+                p.add_model(model);
+            }
+            let psx = short(&p);
+            for (view, name) in [(View::Seq, "seq"), (View::Rev, "rev"), (View::Index, "index"), (View::IndexMut, "index-mut"), (View::Mut, "mut"), (View::MutRev, "mut-rev")] {
+                let mut q = p.clone();
+                let w = crate::guarded(|| walk_pdb(&mut q, view)).unwrap_or(y("panic"));
+                out.case("C09", call("walk", vec![psx.clone()]), w, &format!("prop:walk-{name}"), p.total_atom_count() > 1);
+            }
+            out.count("model-size-sweep");
+        }
+    }
     let pools: Vec<usize> = if thorough { (1..=16).collect() } else { vec![1, 2, 3, 4, 8, 16] };
     let repeats = if thorough { 5 } else { 2 };
     let short = |p: &PDB| snap::pdb(p, &snap::atom_short);
@@ -249,7 +294,7 @@ pub fn run(seed: u64, count: usize, thorough: bool, out: &mut Out) {
         let p = gen::ragged(&mut rng, &cfg);
         let psx = short(&p);
         let nontrivial = p.total_atom_count() > 1;
-        for (view, name) in [(View::Seq, "seq"), (View::Rev, "rev"), (View::Index, "index"), (View::Mut, "mut"), (View::MutRev, "mut-rev")] {
+        for (view, name) in [(View::Seq, "seq"), (View::Rev, "rev"), (View::Index, "index"), (View::IndexMut, "index-mut"), (View::Mut, "mut"), (View::MutRev, "mut-rev")] {
             let mut q = p.clone();
             let w = crate::guarded(|| walk_pdb(&mut q, view)).unwrap_or(y("panic"));
             out.case("C09", call("walk", vec![psx.clone()]), w.clone(), &format!("prop:walk-{name}"), nontrivial);
